@@ -52,7 +52,7 @@ func c15RelShape(guard, store string) string {
 	return strings.NewReplacer("GUARD", guard, "STORE", store).Replace(c15RelSingleExit)
 }
 
-const c15WayGuardOld = "func (w *Way) applyUpdate(u Update) error {\n\tif u.Index >= len(w.Nodes) {"
+const c15WayGuardOld = "func (w *Way) applyUpdate(u Update) error {\n\tif u.Index < 0 || u.Index >= len(w.Nodes) {"
 
 func c15InRange(body string) string {
 	return "func (u Update) inRange(n int) bool {\n" + body + "\n}\n\nfunc (w *Way) applyUpdate(u Update) error {\n\tif !u.inRange(len(w.Nodes)) {"
@@ -88,7 +88,7 @@ func c15Split(due, lhs string) string {
 }
 
 func c15WayCopy(body string) string {
-	return "\tif u.Index >= len(w.Nodes) {\n\t\treturn &UpdateIndexOutOfRangeError{Index: u.Index}\n\t}\n\n" + body
+	return "\tif u.Index < 0 || u.Index >= len(w.Nodes) {\n\t\treturn &UpdateIndexOutOfRangeError{Index: u.Index}\n\t}\n\n" + body
 }
 
 var c15Benign3 = []core.Mutant{
@@ -97,9 +97,9 @@ var c15Benign3 = []core.Mutant{
 		Replace: c15InRange("\treturn uint(u.Index) < uint(n)")},
 	// signed comparison with the last valid index, through a local
 	{Name: "inrange-signed-last", File: "way.go", Find: c15WayGuardOld,
-		Replace: c15InRange("\tlast := n - 1\n\treturn u.Index <= last")},
-	{Name: "guard-signed-last-inline", File: "way.go", Find: "\tif u.Index >= len(w.Nodes) {\n\t\treturn &UpdateIndexOutOfRangeError",
-		Replace: "\tif u.Index > len(w.Nodes)-1 {\n\t\treturn &UpdateIndexOutOfRangeError"},
+		Replace: c15InRange("\tlast := n - 1\n\treturn 0 <= u.Index && u.Index <= last")},
+	{Name: "guard-signed-last-inline", File: "way.go", Find: "\tif u.Index < 0 || u.Index >= len(w.Nodes) {\n\t\treturn &UpdateIndexOutOfRangeError",
+		Replace: "\tif u.Index < 0 || u.Index > len(w.Nodes)-1 {\n\t\treturn &UpdateIndexOutOfRangeError"},
 	// single exit: the loop is left through the error variable in its condition
 	{Name: "rel-cond-var-exit", File: "relation.go", Find: c15RelApplyOld,
 		Replace: c15RelShape("err == nil && ", "if err == nil {\n\t\tr.Updates = pending\n\t}")},
@@ -117,7 +117,7 @@ var c15Benign3 = []core.Mutant{
 	{Name: "way-copy-modify-store", File: "way.go", Find: c15OldCopy,
 		Replace: c15WayCopy("\tn := w.Nodes[u.Index]\n\tn.Version, n.ChangesetID = u.Version, u.ChangesetID\n\tn.Lat, n.Lon = u.Lat, u.Lon\n\tw.Nodes[u.Index] = n\n")},
 	{Name: "rel-copy-modify-store", File: "relation.go", Find: c15OldRCopy,
-		Replace: "\ti := u.Index\n\tif i >= len(r.Members) {\n\t\treturn &UpdateIndexOutOfRangeError{Index: i}\n\t}\n\n\tm := r.Members[i]\n\tm.Version = u.Version\n\tm.ChangesetID = u.ChangesetID\n\tm.Lat = u.Lat\n\tm.Lon = u.Lon\n\tif u.Reverse {\n\t\tm.Orientation = -m.Orientation\n\t}\n\n\tr.Members[i] = m\n"},
+		Replace: "\ti := u.Index\n\tif i < 0 || i >= len(r.Members) {\n\t\treturn &UpdateIndexOutOfRangeError{Index: i}\n\t}\n\n\tm := r.Members[i]\n\tm.Version = u.Version\n\tm.ChangesetID = u.ChangesetID\n\tm.Lat = u.Lat\n\tm.Lon = u.Lon\n\tif u.Reverse {\n\t\tm.Orientation = -m.Orientation\n\t}\n\n\tr.Members[i] = m\n"},
 }
 
 var c15Mutants3 = []core.Mutant{
@@ -125,7 +125,7 @@ var c15Mutants3 = []core.Mutant{
 	{Name: "inrange-unsigned-last", File: "way.go", Find: c15WayGuardOld,
 		Replace:    c15InRange("\tlast := uint(n - 1)\n\treturn uint(u.Index) <= last"),
 		ExpectRule: "U3", ExpectConstruct: "index@Way.Nodes"},
-	{Name: "guard-unsigned-last-inline", File: "way.go", Find: "\tif u.Index >= len(w.Nodes) {\n\t\treturn &UpdateIndexOutOfRangeError",
+	{Name: "guard-unsigned-last-inline", File: "way.go", Find: "\tif u.Index < 0 || u.Index >= len(w.Nodes) {\n\t\treturn &UpdateIndexOutOfRangeError",
 		Replace:    "\tif uint(u.Index) > uint(len(w.Nodes))-1 {\n\t\treturn &UpdateIndexOutOfRangeError",
 		ExpectRule: "U3", ExpectConstruct: "index@Way.Nodes"},
 	// partition that treats an update stamped exactly at t as pending
